@@ -165,6 +165,34 @@ def innerWallsSpec (ds : DSetData) : String :=
      | _ => ok)
   | _ => ok
 
+/-! ### Spec of the steps that have no model payload (`split_and_glue`: HashSet order; `merge_all`
+on D-sets above the size limit of the full `inner_edges` model)
+
+Asked of the implementation's output whenever the input satisfies the same clauses: the clauses
+that are proved invariants of every modelled step (`simplify_step_preserves_oriented_manifold`):
+entries in range and involutive, complete, far operations commute and differ, no fixed points,
+oriented (bipartite chamber graph).  For `split_and_glue` moreover: a returned D-set is strictly
+smaller (the only results the code lets through).  Not asked: sphericity and the first homology —
+neither is a proved step invariant, and `split_and_glue` may legitimately perform sphere surgery. -/
+
+def stepClauses (g : G) : List (String × Bool) :=
+  [ ("step-entries-in-range-and-involutive", inRangeInvolutive g),
+    ("step-complete", g.complete),
+    ("step-far-operations-commute", farCommute g),
+    ("step-far-operations-differ", farDiffer g),
+    ("step-no-fixed-points", g.loopless),
+    ("step-oriented", g.bipartite) ]
+
+def stepSpec (isSplit : Bool) (gin : G) (out : Array String) : String :=
+  if !((stepClauses gin).all (·.2)) then ok
+  else if out == #["PANIC"] || out == #["N"] || out == #["E"] then ok
+  else
+    match run (do let t ← P.tok; let s ← P.dset; let fin ← P.atEnd; pure (t, s, fin)) out with
+    | some ("D", s, true) =>
+      check (stepClauses (specOfSet s) ++
+        (if isSplit then [("split-and-glue-result-is-strictly-smaller", decide (s.size < gin.size))] else []))
+    | _ => fail "unreadable-result"
+
 /-! ### handler -/
 
 def dsOnly (inp : Array String) : Option DSetData :=
@@ -183,7 +211,10 @@ def handler : Handler := fun op inp out =>
      | none => bad)
   | "corpus_cover" =>
     ("-", if out == #["N"] then fail "corpus-symbol-has-no-pseudo-toroidal-cover" else ok)
-  | "split_and_glue" | "merge_all_s" => ("-", ok)
+  | "split_and_glue" | "merge_all_s" =>
+    (match dsOnly inp with
+     | some s => ("-", stepSpec (op == "split_and_glue") (specOfSet s) out)
+     | none => bad)
   | "collapse" =>
     (match run (do let s ← P.dset; let rem ← P.nats; let c ← P.nat; let fin ← P.atEnd; pure (s, rem, c, fin)) inp with
      | some (s, rem, c, true) => (encStep (collapse (.dset s) rem c), ok)
